@@ -7,6 +7,7 @@ Markdown back into this structure.
 -/
 import Paroxy.Proofs.Report
 import Paroxy.Proofs.ReportOrder
+import Paroxy.Proofs.Recommend
 namespace Paroxy.Props.C17
 open Paroxy Paroxy.Filter Paroxy.Costs Paroxy.Report
 
@@ -162,5 +163,128 @@ example : (body (exampleInput false)).map listing =
     some [(.noGroup, [(0, codesOf "c.py"), (1 / 2, codesOf "a.py"), (5 / 4, codesOf "b.py")])] := by
   rw [body_of_presorted _ (by decide +kernel)]
   decide +kernel
+
+/-- **End to end.** For one recommender — `Recommendations(db)`, any number of `run_pipeline` calls,
+then `get_markdown` — with every database, oracle, strategy and option: when a report is produced,
+(1) the filter state it is built from is the one the concatenated commands compute (C04–C06 describe it);
+(2) the listed programs are exactly the selected, non-hidden ones of that state, each as often as it
+    is selected (once: the selection has no duplicates, `C17_listed_once`);
+(3) every section is under `cost_bucket(cost)`, its stated cost is the sum of the taxon costs of the
+    whole record of the program under the FINAL knowledge, and its table lists exactly the non-hidden
+    taxa of that record with their spans and that taxon cost. -/
+theorem C17_end_to_end (c : Ctx) (r : Relations) (strat : Strategy) (sloc : Codes → Nat) (sorting : Sorting)
+    (grouping : Bool) (runs : List (List Command)) (rep : Recommendation)
+    (h : recommend c r strat sloc sorting grouping runs = .ok rep) :
+    runPipeline c r (initState c.programs) runs.flatten = .ok rep.final ∧
+    (rep.body.flatMap fun g => g.2.map (·.path)).Perm
+      (rep.final.selected.filter fun p => !rep.final.hiddenPrograms.contains p) ∧
+    ∀ g ∈ rep.body, ∀ s ∈ g.2, ∃ rec, dictGet? c.programs s.path = some rec ∧
+      (grouping = true → g.1 = costBucket s.cost) ∧
+      s.cost = (rec.map fun ts => taxonCost strat rep.final.knowledge ts.1).sum ∧
+      ∀ row : Row, row ∈ s.rows ↔ (row.taxon, row.spans) ∈ rec ∧ row.taxon ∉ rep.final.hiddenTaxa ∧
+        row.cost = taxonCost strat rep.final.knowledge row.taxon := by
+  unfold recommend at h
+  cases hr : runsLogged c r (initState c.programs) [] runs with
+  | error e => rw [hr] at h; cases h
+  | ok v =>
+    obtain ⟨st, log⟩ := v
+    rw [hr] at h
+    simp only at h
+    cases ha : assess strat c.programs st.knowledge st.selected with
+    | none => rw [ha] at h; cases h
+    | some assessed =>
+      rw [ha] at h
+      simp only at h
+      generalize hi : (⟨strat, c.programs, sloc, st.knowledge, st.hiddenTaxa, st.hiddenPrograms, assessed, sorting,
+        grouping⟩ : Input) = i at h
+      cases hb : body i with
+      | none => rw [hb] at h; cases h
+      | some b =>
+        rw [hb] at h
+        cases h
+        subst hi
+        refine ⟨runsLogged_state c r runs _ [] st log hr, ?_, ?_⟩
+        · have hm := (C17_membership _ b hb).map (·.2)
+          have hp := (assess_spec strat c.programs st.knowledge st.selected assessed ha).1
+          have e1 : (b.flatMap fun g => g.2.map fun s => (s.cost, s.path)).map (·.2) =
+              b.flatMap fun g => g.2.map (·.path) := by
+            simp [List.map_flatMap, Function.comp_def]
+          have e2 : (assessed.filter fun cp => !st.hiddenPrograms.contains cp.2).map (·.2) =
+              (assessed.map (·.2)).filter fun p => !st.hiddenPrograms.contains p := by
+            rw [List.filter_map]; rfl
+          simp only at hm
+          rw [e1, e2] at hm
+          exact hm.trans (hp.filter _)
+        · intro g hg s hs
+          obtain ⟨rec, hrec, hrows⟩ := C17_rows _ b hb g hg s hs
+          obtain ⟨rec', hrec', hcost⟩ := C17_total _ st.selected ha b hb g hg s hs
+          have : rec' = rec := Option.some.inj (hrec'.symm.trans hrec)
+          subst this
+          exact ⟨rec', hrec, fun hgr => C17_bucket _ hgr b hb g hg s hs, hcost, hrows⟩
+
+/-- … and each listed program appears once: the selection of a well-formed database has no duplicate,
+and commands only ever remove programs. -/
+theorem C17_listed_once (c : Ctx) (r : Relations) (strat : Strategy) (sloc : Codes → Nat) (sorting : Sorting)
+    (grouping : Bool) (runs : List (List Command)) (rep : Recommendation)
+    (hn : (c.programs.map (·.1)).Nodup)
+    (h : recommend c r strat sloc sorting grouping runs = .ok rep) :
+    (rep.body.flatMap fun g => g.2.map (·.path)).Nodup := by
+  obtain ⟨h1, h2, _⟩ := C17_end_to_end c r strat sloc sorting grouping runs rep h
+  refine h2.nodup_iff.mpr (List.Nodup.sublist List.filter_sublist ?_)
+  exact List.Nodup.sublist (runPipeline_sublist c r _ _ _ h1) hn
+
+/-- **Headings in increasing cost order, under BOTH sorting strategies.** With `by_cost_bucket`
+grouping, when the assessed list is sorted by non-negative cost (what `assess` returns), every
+program listed under an earlier heading costs strictly less than every program under a later one —
+also under the lexicographic strategy, where the order INSIDE a heading is by path (`C17_order`). -/
+theorem C17_headings_increasing (i : Input) (hg : i.grouping = true)
+    (hsorted : i.assessed.Pairwise (fun a b => a.1 ≤ b.1)) (hnonneg : ∀ cp ∈ i.assessed, 0 ≤ cp.1)
+    (b : List (Bucket × List Section)) (h : body i = some b) :
+    b.Pairwise fun g1 g2 => ∀ s1 ∈ g1.2, ∀ s2 ∈ g2.2, s1.cost < s2.cost := by
+  have hk := body_keys_strict i hsorted hnonneg b h
+  have hmem : ∀ g ∈ b, ∀ s ∈ g.2, 0 ≤ s.cost ∧ g.1 = costBucket s.cost := by
+    intro g hgm s hs
+    have h1 : (s.cost, s.path) ∈ b.flatMap fun g => g.2.map fun s => (s.cost, s.path) :=
+      List.mem_flatMap.mpr ⟨g, hgm, List.mem_map_of_mem hs⟩
+    have h2 := (List.mem_filter.mp ((C17_membership i b h).mem_iff.mp h1)).1
+    exact ⟨hnonneg _ h2, C17_bucket i hg b h g hgm s hs⟩
+  refine hk.imp_of_mem ?_
+  intro g1 g2 hg1 hg2 hr s1 hs1 s2 hs2
+  obtain ⟨_, e1⟩ := hmem g1 hg1 s1 hs1
+  obtain ⟨n2, e2⟩ := hmem g2 hg2 s2 hs2
+  rw [e1, e2] at hr
+  by_cases hlt : s1.cost < s2.cost
+  · exact hlt
+  · have hge : s2.cost ≤ s1.cost := by grind
+    exact absurd (costBucket_rank_mono n2 hge) (by omega)
+
+/-- **A report is always produced.** Whenever the commands are accepted (no rejected predicate string:
+`runPipeline` on the concatenated commands succeeds — `C04_error` says exactly when), `recommend` returns a
+report: no `KeyError` can come from the assessment or from the rendering loop, for any database, oracle,
+strategy and option. (This is also the non-vacuity of `C17_end_to_end`: with no command at all there is
+always a report, listing every program of the database.) -/
+theorem C17_report_total (c : Ctx) (r : Relations) (strat : Strategy) (sloc : Codes → Nat) (sorting : Sorting)
+    (grouping : Bool) (runs : List (List Command)) (st : State) (log : List LogEntry)
+    (h : runsLogged c r (initState c.programs) [] runs = .ok (st, log)) :
+    ∃ rep, recommend c r strat sloc sorting grouping runs = .ok rep ∧ rep.final = st ∧ rep.log = log := by
+  have hsub := runPipeline_sublist c r runs.flatten (initState c.programs) st
+    (runsLogged_state c r runs _ [] st log h)
+  have hsel : ∀ p ∈ st.selected, p ∈ c.programs.map (·.1) := fun p hp => hsub.subset hp
+  obtain ⟨assessed, ha⟩ := assess_total strat c.programs st.knowledge st.selected hsel
+  have hass : ∀ cp ∈ assessed, cp.2 ∈ c.programs.map (·.1) := by
+    intro cp hcp
+    have := (assess_spec strat c.programs st.knowledge st.selected assessed ha).1
+    exact hsel cp.2 (this.mem_iff.mp (List.mem_map_of_mem hcp))
+  obtain ⟨b, hb⟩ := body_total ⟨strat, c.programs, sloc, st.knowledge, st.hiddenTaxa, st.hiddenPrograms, assessed,
+    sorting, grouping⟩ hass
+  refine ⟨⟨b, log, st, assessed⟩, ?_, rfl, rfl⟩
+  unfold recommend
+  rw [h]
+  simp only [ha, hb]
+
+example (c : Ctx) (r : Relations) (strat : Strategy) (sloc : Codes → Nat) (sorting : Sorting) (grouping : Bool) :
+    ∃ rep, recommend c r strat sloc sorting grouping [] = .ok rep ∧ rep.final = initState c.programs :=
+  let ⟨rep, h1, h2, _⟩ := C17_report_total c r strat sloc sorting grouping [] (initState c.programs) [] rfl
+  ⟨rep, h1, h2⟩
 
 end Paroxy.Props.C17
